@@ -133,6 +133,10 @@ struct CT(u32);
 /// a client event whose payload is a sequence (registered last; only injected bytes ever arrive on its channel)
 #[derive(Event, Serialize, Deserialize, Clone)]
 struct CEV(Vec<u64>);
+/// a client event with a string and a float (postcard reads both through `try_take_n`; registered last, only injected bytes
+/// ever arrive on its channel)
+#[derive(Event, Serialize, Deserialize, Clone)]
+struct CES(String, f32);
 
 /// What game logic observed: (type name, sequence number, entity if any, sender client entity if any).
 #[derive(Resource, Default)]
@@ -361,6 +365,7 @@ fn add_common(app: &mut App, cfg: &Cfg, server_side: bool) {
         .add_client_trigger::<CT>(Channel::Ordered)
         .add_client_event::<CEV>(Channel::Ordered)
         .add_client_trigger::<CTU>(Channel::Ordered)
+        .add_client_event::<CES>(Channel::Ordered)
         .init_resource::<EventLog>();
     if cfg.track {
         app.track_mutate_messages();
